@@ -8,6 +8,7 @@ mod c19;
 mod c20;
 mod exec;
 mod fixtures;
+mod forge;
 mod issuance;
 mod nr;
 mod pres;
@@ -38,7 +39,7 @@ fn backend() -> &'static str {
 fn gen(stream: &str, tier: &str, seed: u64) -> Result<(), String> {
     let mut rng = Rng::new(seed);
     let thorough = tier == "thorough";
-    let gens: Vec<fn(&str, bool, &mut Rng) -> Option<Result<(), String>>> = vec![reg::gen, pres::gen, issuance::gen, nr::gen, blind::gen, bn::gen, c19::gen, c20::gen, ser::gen];
+    let gens: Vec<fn(&str, bool, &mut Rng) -> Option<Result<(), String>>> = vec![reg::gen, pres::gen, issuance::gen, nr::gen, blind::gen, bn::gen, c19::gen, c20::gen, ser::gen, forge::gen];
     for g in gens {
         if let Some(r) = g(stream, thorough, &mut rng) {
             return r;
@@ -53,7 +54,7 @@ fn main() {
     let cmd = args.get(1).map(|s| s.as_str()).unwrap_or("");
     let r = match cmd {
         "mkfixtures" => fixtures::make_fixtures(args.iter().any(|a| a == "--force")),
-        "mkgolden" => ser::make_golden(args.iter().any(|a| a == "--force")),
+        "mkgolden" => if args.iter().any(|a| a == "--rebin") { ser::rebin_golden() } else { ser::make_golden(args.iter().any(|a| a == "--force")) },
         "gen" => {
             let stream = args.get(2).cloned().unwrap_or_default();
             let tier = arg_val(&args, "--tier").unwrap_or_else(|| "quick".into());
